@@ -235,6 +235,50 @@ generated.register(ProgBase, 'ProgBase')
 _CLASS_CACHE = {}
 
 
+class AnyEq:
+    """A value that compares equal to anything (like unittest.mock.ANY)."""
+
+    def __eq__(self, other):
+        return True
+
+    def __ne__(self, other):
+        return False
+
+    __hash__ = object.__hash__
+
+    def __repr__(self):
+        return '@ANYEQ'
+
+
+class _NoBool:
+    def __bool__(self):
+        raise ValueError('The truth value of an array with more than one element is ambiguous')
+
+
+class NoBoolEq:
+    """A value whose == gives something without a truth value (like a numpy array)."""
+
+    def __eq__(self, other):
+        return _NoBool()
+
+    def __ne__(self, other):
+        return _NoBool()
+
+    __hash__ = object.__hash__
+
+    def __repr__(self):
+        return '@NOBOOL'
+
+
+def special(value):
+    """Markers in generated cases standing for values with an unusual ``==``."""
+    if isinstance(value, str) and value == '@ANYEQ':
+        return AnyEq()
+    if isinstance(value, str) and value == '@NOBOOL':
+        return NoBoolEq()
+    return value
+
+
 def _jsonable(value):
     if isinstance(value, tuple):
         return [_jsonable(v) for v in value]
